@@ -3637,34 +3637,40 @@ let handle s = function
   in
   if negb (N.eqb v0.v_status N0)
   then HErr s
-  else if Z.ltb amt s.pp.p_min_stake
+  else if match aget s.sinfo a with
+          | Some si -> si.si_tomb
+          | None -> false
        then HErr s
-       else if Z.ltb (bal s a) amt
+       else if Z.ltb amt s.pp.p_min_stake
             then HErr s
-            else let s1 =
-                   match get_val s a with
-                   | Some _ -> s
-                   | None ->
-                     set_misc (put_val s a v0) s.proposer (aset s.pkrel a pk)
-                 in
-                 (match bank_send s1 a s1.ma.m_pool amt with
-                  | Some s2 ->
-                    let v1 =
-                      with_status (with_tokens v0 (Z.add v0.v_tokens amt))
-                        (Npos (XO XH))
-                    in
-                    let s3 = set_staked (put_val s2 a v1) a v1 in
-                    let s4 =
-                      match aget s3.sinfo a with
-                      | Some _ -> s3
-                      | None ->
-                        set_sign s3
-                          (aset s3.sinfo a { si_start = s3.height;
-                            si_offset = Z0; si_jailed_until = Z0; si_tomb =
-                            false; si_missed = Z0 }) s3.missed
-                    in
-                    HOk s4
-                  | None -> HErr s1)
+            else if Z.ltb (bal s a) amt
+                 then HErr s
+                 else let s1 =
+                        match get_val s a with
+                        | Some _ -> s
+                        | None ->
+                          set_misc (put_val s a v0) s.proposer
+                            (aset s.pkrel a pk)
+                      in
+                      (match bank_send s1 a s1.ma.m_pool amt with
+                       | Some s2 ->
+                         let v1 =
+                           with_status
+                             (with_tokens v0 (Z.add v0.v_tokens amt)) (Npos
+                             (XO XH))
+                         in
+                         let s3 = set_staked (put_val s2 a v1) a v1 in
+                         let s4 =
+                           match aget s3.sinfo a with
+                           | Some _ -> s3
+                           | None ->
+                             set_sign s3
+                               (aset s3.sinfo a { si_start = s3.height;
+                                 si_offset = Z0; si_jailed_until = Z0;
+                                 si_tomb = false; si_missed = Z0 }) s3.missed
+                         in
+                         HOk s4
+                       | None -> HErr s1)
 | MUnstake a ->
   (match get_val s a with
    | Some v ->
